@@ -1,6 +1,6 @@
 """C16 - Ray casting returns the nearest intersection.
 
-Domain : scenes with 3-9 geoms of every type except hfield/sdf (plane finite/infinite, sphere, capsule, ellipsoid, cylinder,
+Domain : scenes with 3-10 geoms of every type except sdf (height fields with nrow != ncol and raised rims, plane finite/infinite, sphere, capsule, ellipsoid, cylinder,
          box, inline meshes: tetrahedron, cube, icosphere, random hulls) on the world body and on free bodies with 1-3 geoms
          (rotated bodies with off-centre geoms: the multi-ray body culling path), geom groups, invisible geoms (alpha 0),
          x ~40 rays per scene from outside / inside a geom / far away, aimed at geoms, random, axis-parallel, grazing,
@@ -29,6 +29,63 @@ TANGENT = 1e-9    # don't-care band of hit/no-hit decisions (DESIGN: 1e-9 of tan
 
 PRIM = ('sphere', 'capsule', 'ellipsoid', 'cylinder', 'box')
 NGROUP = 6
+
+
+
+class HShape(gr.Shape):
+  """Height field as the exterior surface of its solid (terrain triangles, four side walls down to -base, bottom), from the
+  documented geometry (XMLreference asset/hfield: grid over [-sx,sx]x[-sy,sy], z = data*sz >= 0, base box of depth size[3])."""
+  hfield = True
+
+  def minsize(self):
+    return self._ms
+
+
+def hfield_shape(m, d, g):
+  hid = int(m.geom_dataid[g])
+  nrow, ncol = int(m.hfield_nrow[hid]), int(m.hfield_ncol[hid])
+  sx, sy, sz, base = [float(v) for v in m.hfield_size[hid]]
+  adr = int(m.hfield_adr[hid])
+  data = np.array(m.hfield_data[adr:adr + nrow * ncol], dtype=float).reshape(nrow, ncol)
+  xs = -sx + 2 * sx * np.arange(ncol) / (ncol - 1)
+  ys = -sy + 2 * sy * np.arange(nrow) / (nrow - 1)
+  verts, faces = [], []
+
+  def vid(p):
+    verts.append(p)
+    return len(verts) - 1
+
+  def tri(a, b, c, out):
+    n = np.cross(np.subtract(b, a), np.subtract(c, a))
+    if np.dot(n, out) < 0:
+      b, c = c, b
+    faces.append((vid(a), vid(b), vid(c)))
+  for r in range(nrow - 1):
+    for c in range(ncol - 1):
+      v00 = (xs[c], ys[r], data[r, c] * sz)
+      v10 = (xs[c + 1], ys[r], data[r, c + 1] * sz)
+      v11 = (xs[c + 1], ys[r + 1], data[r + 1, c + 1] * sz)
+      v01 = (xs[c], ys[r + 1], data[r + 1, c] * sz)
+      tri(v00, v10, v11, (0, 0, 1))        # cell diagonal from (r,c) to (r+1,c+1): engine convention (see assumptions)
+      tri(v00, v11, v01, (0, 0, 1))
+  for c in range(ncol - 1):
+    for r, yy, out in ((0, -sy, (0, -1, 0)), (nrow - 1, sy, (0, 1, 0))):
+      b0, b1 = (xs[c], yy, -base), (xs[c + 1], yy, -base)
+      t0, t1 = (xs[c], yy, data[r, c] * sz), (xs[c + 1], yy, data[r, c + 1] * sz)
+      tri(b0, b1, t1, out)
+      tri(b0, t1, t0, out)
+  for r in range(nrow - 1):
+    for c, xx, out in ((0, -sx, (-1, 0, 0)), (ncol - 1, sx, (1, 0, 0))):
+      b0, b1 = (xx, ys[r], -base), (xx, ys[r + 1], -base)
+      t0, t1 = (xx, ys[r], data[r, c] * sz), (xx, ys[r + 1], data[r + 1, c] * sz)
+      tri(b0, b1, t1, out)
+      tri(b0, t1, t0, out)
+  tri((-sx, -sy, -base), (sx, -sy, -base), (sx, sy, -base), (0, 0, -1))
+  tri((-sx, -sy, -base), (sx, sy, -base), (-sx, sy, -base), (0, 0, -1))
+  S = HShape('mesh', [sx, sy, sz], np.array(d.geom_xpos[g]), np.array(d.geom_xmat[g]).reshape(3, 3), np.array(verts), faces)
+  S._ms = min(sx, sy, max(sz, base))
+  S.hf = dict(sx=sx, sy=sy, sz=sz, base=base, nrow=nrow, ncol=ncol, zmax=float(data.max()) * sz)
+  return S
 
 
 def scene_strategy():
@@ -79,6 +136,29 @@ def build_scene(case, rng):
     q = gg.rand_quat(rng) if rng.rand() < 0.5 else np.array([1.0, 0, 0, 0])
     world.append('<geom name="plane" type="plane" size="%s" pos="%s" quat="%s" contype="0" conaffinity="0"%s/>' % (
         sz, gg.fmt(scale * rng.uniform(-1, 1, 3)), gg.fmt(q), ' group="%d"' % rng.randint(0, NGROUP) if rng.rand() < .5 else ''))
+  if rng.rand() < 0.75:
+    nrow = int(rng.randint(2, 7))
+    ncol = int(rng.randint(2, 7))
+    if nrow == ncol and rng.rand() < 0.85:
+      ncol = nrow + int(rng.choice([-1, 1, 2])) if nrow > 2 else nrow + int(rng.randint(1, 3))
+    el = rng.uniform(0, 1, (nrow, ncol))
+    if rng.rand() < 0.6:                      # raised / lowered rims so that the wall profiles differ from the interior
+      for edge in range(4):
+        v = rng.choice([0.0, 1.0, 2.0])
+        if edge == 0:
+          el[0, :] += v
+        elif edge == 1:
+          el[-1, :] += v
+        elif edge == 2:
+          el[:, 0] += v
+        else:
+          el[:, -1] += v
+    hs = scale * np.array([rng.uniform(0.3, 1.0), rng.uniform(0.3, 1.0), rng.uniform(0.1, 0.5), rng.uniform(0.05, 0.3)])
+    assets.append('<hfield name="hf" nrow="%d" ncol="%d" size="%s" elevation="%s"/>' % (
+        nrow, ncol, gg.fmt(hs), ' '.join('%.6g' % v for v in el.ravel())))
+    world.append('<geom name="hf" type="hfield" hfield="hf" pos="%s" quat="%s" contype="0" conaffinity="0"%s/>' % (
+        gg.fmt(scale * rng.uniform(-1, 1, 3)), gg.fmt(gg.rand_quat(rng) if rng.rand() < 0.6 else [1, 0, 0, 0]),
+        ' group="%d"' % rng.randint(0, NGROUP) if rng.rand() < .5 else ''))
   for i in range(case['nworld']):
     world.append(one_geom('w%d' % i))
   for b in range(case['nbody']):
@@ -101,7 +181,10 @@ def main(ck):
                     'the rendered rectangle (engine convention; XMLreference describes the rectangle as rendering only)',
                     'invisible geoms (rgba alpha 0, no material) are excluded (documented for rangefinder; mj_ray comment "visible geoms")',
                     'mj_multiRay is called with unit direction vectors (cutoff is a distance)',
-                    'hfield and sdf geoms are not generated (see LEVEL_NOTE)']
+                    'height fields: exterior surface of the documented solid (grid over [-sx,sx]x[-sy,sy], z = data*sz, base box); each '
+                    'cell is split along the diagonal from (r,c) to (r+1,c+1) (engine convention, the documentation only says '
+                    '"triangular prisms"); rays whose origin is inside the bounding box of the height field are dont-care for it',
+                    'sdf geoms are not generated (see LEVEL_NOTE)']
   worst = dict(x=0.0, normal=0.0)
   stats = dict(rays=0, hits=0, none=0, fragile=0, multiray_rays=0, multiray_dontcare=0)
   nrays = 40
@@ -128,7 +211,9 @@ def main(ck):
       d.qpos[a + 3:a + 7] = gg.rand_quat(rng)
     lib.mj_forward(m, d)
     ng = int(m.ngeom)
-    shapes = [gr.shape_from_model(m, d, g) for g in range(ng)]
+    shapes = [hfield_shape(m, d, g) if int(m.geom_type[g]) == E.mjGEOM_HFIELD else gr.shape_from_model(m, d, g) for g in range(ng)]
+    ishf = [getattr(sh, 'hfield', False) for sh in shapes]
+    hfs = [g for g in range(ng) if ishf[g]]
     gtype = [int(t) for t in m.geom_type]
     bodyid = [int(b) for b in m.geom_bodyid]
     static = [int(m.body_weldid[b]) == 0 for b in bodyid]
@@ -136,9 +221,14 @@ def main(ck):
     group = [min(NGROUP - 1, max(0, int(m.geom_group[g]))) for g in range(ng)]
     rbound = [float(r) for r in m.geom_rbound]
     L = scale * 3
-    ck.label(*('type:' + shapes[g].typ for g in range(ng)))
+    ck.label(*('type:' + ('hfield%s' % ('(nrow!=ncol)' if shapes[g].hf['nrow'] != shapes[g].hf['ncol'] else '') if ishf[g] else shapes[g].typ) for g in range(ng)))
 
     def oracle_geom(g, pnt, vec):
+      if ishf[g]:
+        h = shapes[g].hf
+        pl = shapes[g].to_local(pnt)
+        if abs(pl[0]) <= h['sx'] * (1 + 1e-9) and abs(pl[1]) <= h['sy'] * (1 + 1e-9) and -h['base'] * (1 + 1e-9) <= pl[2] <= h['zmax'] * (1 + 1e-9):
+          return dict(x=None, fragile=True)          # origin (possibly) inside the solid: not modelled
       return gr.ray_shape(shapes[g], pnt, vec, TANGENT)
 
     def passes(g, mask, flg_static, bodyexclude):
@@ -148,11 +238,36 @@ def main(ck):
         return False
       return mask is None or bool(mask[group[g]])
 
+    def hf_ray():
+      g = hfs[rng.randint(len(hfs))]
+      sh = shapes[g]
+      h = sh.hf
+      which = rng.randint(6)           # 0:-x 1:+x 2:-y 3:+y walls, 4: base, 5: top
+      far = rng.uniform(0.2, 3.0) * max(h['sx'], h['sy'])
+      tl = np.array([rng.uniform(-0.95, 0.95) * h['sx'], rng.uniform(-0.95, 0.95) * h['sy'], rng.uniform(-h['base'], 1.2 * h['zmax'] + 1e-3)])
+      ol = np.array([rng.uniform(-1.5, 1.5) * h['sx'], rng.uniform(-1.5, 1.5) * h['sy'], rng.uniform(-h['base'], 1.5 * h['zmax'] + 1e-3)])
+      if which < 2:
+        sg = -1.0 if which == 0 else 1.0
+        tl[0], ol[0] = sg * h['sx'], sg * (h['sx'] + far)
+      elif which < 4:
+        sg = -1.0 if which == 2 else 1.0
+        tl[1], ol[1] = sg * h['sy'], sg * (h['sy'] + far)
+      elif which == 4:
+        tl[2], ol[2] = -h['base'], -h['base'] - far
+      else:
+        tl[2], ol[2] = 0.5 * h['zmax'], h['zmax'] + far
+      pnt = sh.to_world(ol)
+      vec = sh.mat @ (tl - ol)
+      vec = vec / np.linalg.norm(vec) * 10 ** rng.uniform(-1, 1)
+      return np.ascontiguousarray(pnt), np.ascontiguousarray(vec), None
+
     def make_ray():
+      if hfs and rng.rand() < 0.3:
+        return hf_ray()
       k = rng.randint(6)
       inside = None
-      if k == 0 and ng:
-        g = rng.randint(ng)
+      if k == 0 and ng and not ishf[(g0_ := rng.randint(ng))]:
+        g = g0_
         inside = g
         s = shapes[g]
         pnt = s.pos + (0 if s.typ == 'plane' else 0.3 * s.minsize()) * gg.rand_unit(rng) * rng.uniform(0, 1)
@@ -199,7 +314,9 @@ def main(ck):
       orc = [oracle_geom(g, pnt, vec) for g in range(ng)]
       for g in range(ng):
         nrm = np.zeros(3)
-        if shapes[g].typ == 'mesh':
+        if ishf[g]:
+          xg = lib.mj_rayHfield(m, d, g, pnt, vec, nrm)
+        elif shapes[g].typ == 'mesh':
           xg = lib.mj_rayMesh(m, d, g, pnt, vec, nrm)
         else:
           xg = lib.mju_rayGeom(np.ascontiguousarray(d.geom_xpos[g]), np.ascontiguousarray(d.geom_xmat[g]),
@@ -239,7 +356,7 @@ def main(ck):
           if x > o0['x'] + tolx:
             raise Violation('mj_ray returned x=%.17g (geom %d) but geom %d (%s) is hit earlier at %.17g%s' % (
                 x, gid, g0, shapes[g0].typ, o0['x'], desc()), bucket='not-nearest')
-        if allx:
+        if allx and not (og is not None and og.get('x') is None):      # (the hit geom itself is don't-care for this ray)
           xmin = min(o['x'] for g, o in allx)
           if x < xmin - tolx:
             raise Violation('mj_ray x=%.17g is nearer than every reference intersection (min %.17g)%s' % (x, xmin, desc()),
@@ -254,8 +371,8 @@ def main(ck):
       allcand = [(g, orc[g]) for g in range(ng) if orc[g] is not None and orc[g].get('x') is not None]
       nearest_all = min(allcand, key=lambda t: t[1]['x'])[0] if allcand else None
       removed = nearest_all is not None and not passes(nearest_all, mask, flg_static, bodyexclude)
-      started_inside = any(shapes[g].typ != 'plane' and gr.sdf(shapes[g], pnt) < -1e-9 * L for g in range(ng))
-      labels = ['nhit=%d' % min(nhit, 3), 'result:' + ('none' if x < 0 else shapes[gid].typ)]
+      started_inside = any(shapes[g].typ != 'plane' and not ishf[g] and gr.sdf(shapes[g], pnt) < -1e-9 * L for g in range(ng))
+      labels = ['nhit=%d' % min(nhit, 3), 'result:' + ('none' if x < 0 else ('hfield' if ishf[gid] else shapes[gid].typ))]
       if removed:
         labels.append('filter-removes-nearest')
       if started_inside:
@@ -304,7 +421,9 @@ def main(ck):
         for g in range(ng):
           if not passes(g, mask, flg_static, bodyexclude):
             continue
-          if shapes[g].typ == 'mesh':
+          if ishf[g]:
+            xg = lib.mj_rayHfield(m, d, g, pnt, v, None)
+          elif shapes[g].typ == 'mesh':
             xg = lib.mj_rayMesh(m, d, g, pnt, v, None)
           else:
             xg = lib.mju_rayGeom(np.ascontiguousarray(d.geom_xpos[g]), np.ascontiguousarray(d.geom_xmat[g]),
@@ -408,7 +527,7 @@ rays (outside / inside / far origins; aimed, random, axis-parallel, grazing dire
 flg_static / bodyexclude. mj_ray must return the minimum of the analytic per-geom intersections over the geoms that pass the filters
 (and -1/-1 exactly when none), with the returned geom an argmin; mju_rayGeom / mj_rayMesh are compared per geom including the outward
 unit normal; mj_multiRay must agree bit-exactly with per-geom results under the documented cutoff semantics. Sampled, not exhaustive.'''
-LEVEL_NOTE = '''Height fields and SDF geoms are not generated: the hfield ray depends on an undocumented triangulation of the grid cells and
-no inline-asset SDF exists without plugins; flex/skin rays (mj_rayFlex, mju_raySkin) are outside the statement. Decisions within 1e-9
+LEVEL_NOTE = '''SDF geoms are not generated (no inline-asset SDF exists without plugins); height fields are covered from outside (four side walls,
+base, terrain; non-square grids) with the cell diagonal taken from the engine; flex/skin rays (mj_rayFlex, mju_raySkin) are outside the statement. Decisions within 1e-9
 of tangency / an edge / the origin lying on a surface are don't-care. Plane convention (front side only, rendered rectangle) is taken
 from the engine, the documentation is silent.'''
